@@ -40,3 +40,37 @@ Proof.
   - constructor.
   - rewrite E. reflexivity.
 Qed.
+
+(* ---------- detectors / observables are parities (C04) ---------- *)
+Lemma vec_of_lxor m a b : vec_of m (N.lxor a b) = vxor (vec_of m a) (vec_of m b).
+Proof.
+  unfold vec_of. induction (seq 0 m) as [|i l IH]; [reflexivity|]. cbn [map vxor]. rewrite N.lxor_spec, IH. reflexivity.
+Qed.
+Lemma eval_form_fxor m k a b : eval_form m k (fxor a b) = xorb (eval_form m k a) (eval_form m k b).
+Proof.
+  unfold eval_form, fxor; cbn [fst snd]. rewrite vec_of_lxor, dot_vxor by (rewrite !vec_of_length; reflexivity).
+  destruct (fst a), (fst b), (dot (vec_of m (snd a)) k), (dot (vec_of m (snd b)) k); reflexivity.
+Qed.
+Lemma dot_zero_vec l : forall k, dot (map (fun j : nat => N.testbit 0 (N.of_nat j)) l) k = false.
+Proof. induction l as [|i l IH]; intros [|b k]; cbn [map dot]; try reflexivity.
+  rewrite N.bits_0, IH. reflexivity. Qed.
+Lemma eval_form_fzero m k : eval_form m k fzero = false.
+Proof. unfold eval_form, fzero, vec_of; cbn [fst snd]. rewrite dot_zero_vec. reflexivity. Qed.
+
+(* for EVERY assignment of the variables, the value of a detector form is the XOR of the values of the measurement
+   results it names *)
+Theorem parity_form_is_xor_of_values m k rs ks :
+  eval_form m k (parity_form rs ks) = fold_left (fun acc j => xorb acc (eval_form m k (rec_at rs j))) ks false.
+Proof.
+  unfold parity_form. rewrite <- (eval_form_fzero m k). generalize fzero as acc.
+  induction ks as [|j ks IH]; intros acc; cbn [fold_left]; [reflexivity|].
+  rewrite IH, eval_form_fxor. reflexivity.
+Qed.
+Theorem detector_step_appends_parity n ks r :
+  dets (sstep n (SDetector ks) r) = dets r ++ [parity_form (recs r) ks] /\
+  recs (sstep n (SDetector ks) r) = recs r /\ st (sstep n (SDetector ks) r) = st r /\ obs (sstep n (SDetector ks) r) = obs r.
+Proof. cbn. repeat split. Qed.
+Theorem observable_step_accumulates_parity n idx ks r :
+  obs (sstep n (SObservable idx ks []) r) = upd_obs idx (parity_form (recs r) ks) (obs r) /\
+  recs (sstep n (SObservable idx ks []) r) = recs r /\ st (sstep n (SObservable idx ks []) r) = st r.
+Proof. cbn. repeat split. Qed.
